@@ -300,6 +300,12 @@ MUST_FIRE = [
     ("saw-assignment-unbounded-while", ["C07"], ["R7.4"], P + "pool/multiannotator/_wrapper.py",
      "        for _ in range(int(np.max(n_max_chosen_annotators, initial=0))):\n            if n_annotator_sample_pairs >= batch_size:\n                break\n",
      "        while n_annotator_sample_pairs < batch_size:\n"),
+    ("bald-picks-not-read-off-the-marks", ["C01"], ["R1.5"], P + "pool/_bald.py",
+     "            is_selected = is_nan[1:] & ~is_nan[:-1]\n", "            is_selected = is_nan[1:]\n"),
+    ("cognitive-dual-unfiltered-indices", ["C10"], ["R10.1"], P + "stream/_density_uncertainty.py",
+     "            queried_indices=new_queried_indices,\n", "            queried_indices=queried_indices,\n"),
+    ("variable-uncertainty-stale-guard", ["C10"], ["R10.2"], BZ,
+     "        for i, s in enumerate(queried):\n            if self.budget_ > u_t / self.w:", "        for i, s in enumerate(queried):\n            if self.budget_ > self.u_t_ / self.w:"),
     # ---- C04
     ("fixed-guard-false-path", ["C04"], ["R4.1"], BZ, "                d = False\n", "                pass\n"),
     ("variable-guard-reversed", ["C04"], ["R4.2"], BZ,
